@@ -80,6 +80,9 @@ class MinimalSink:
     def read(self, size=-1):
         return bytes(self._d)
 
+    def __len__(self):            # reports its size: falsy while empty, still a sink
+        return len(self._d)
+
 
 class MinimalAsyncSink:
     def __init__(self, filename, headers):
@@ -93,6 +96,9 @@ class MinimalAsyncSink:
 
     async def aread(self, size=-1):
         return bytes(self._d)
+
+    def __len__(self):
+        return len(self._d)
 
 
 class C15(Prop):
@@ -301,7 +307,11 @@ class C15(Prop):
         surf = plan["iface"] + "_form"
         try:
             if plan["iface"] == "wsgi":
-                got, _ = feed.run_wsgi_form(ctx, ct, pieces)
+                # half of the WSGI requests arrive without CONTENT_LENGTH (a de-chunked upload): the input simply ends
+                no_cl = ctx.sched.draw(2) == 0
+                if no_cl:
+                    ctx.probe("wsgi_body_without_content_length")
+                got, _ = feed.run_wsgi_form(ctx, ct, pieces, no_content_length=no_cl)
             else:
                 got, _ = feed.run_asgi_form(ctx, ct, pieces)
             o = ("ok", got)
